@@ -1,8 +1,8 @@
 \* generated by props/_handshake.py (table CFGS) -- do not edit by hand
 SPECIFICATION Spec
 CONSTANTS
-  Nodes <- NodesM
-  Conns <- ConnsM
+  Nodes = {"A", "B", "M", "O", "D", "V"}
+  Conns = {"c1", "c2", "c3", "d1", "o1", "o2", "m1", "a1", "v1", "d2"}
   Cl <- ClM
   Sv <- SvM
   Eph <- EphM
